@@ -12,7 +12,7 @@ import (
 var extraRules = map[string][]string{
 	// round-2 rules
 	"envelope-buffer-fresh":      {"C01", "C13"},
-	"no-error-type-assertion":    {"C02", "C06", "C11", "C15", "C19"},
+	"no-error-type-assertion":    {"C02", "C06", "C11", "C15", "C19", "C05"},
 	"seterror-last":              {"C02", "C03", "C04", "C11", "C14", "C15"},
 	"no-readahead":               {"C01", "C03", "C09", "C15"},
 	"response-nil-guard":         {"C04", "C06", "C14"},
@@ -47,11 +47,11 @@ var extraRules = map[string][]string{
 	"trailers-after-drain":         {"C02", "C03", "C04", "C11"},
 	"request-started-on-all-exits": {"C14", "C15"},
 	"writer-must-pass-through":     {"C01", "C05"},
-	"index-safety":                 {"C06", "C07", "C18"},
+	"index-safety":                 {"C06", "C07", "C18", "C09"},
 	// round-4 rules and further sharing
 	"options-applied-as-given":        {"C16", "C19", "C12"},
 	"chain-keeps-every-non-nil":       {"C16", "C19"},
-	"no-deadline-only-without-header": {"C10", "C07"},
+	"no-deadline-only-without-header": {"C10", "C07", "C15"},
 	"grpc-error-trailers-complete":    {"C02", "C05", "C19"},
 	"wire-error-fields-unconditional": {"C02", "C05", "C07", "C19"},
 	"decompress-nonempty":             {"C01", "C08"},
@@ -92,7 +92,7 @@ var extraRules = map[string][]string{
 	"holder-fresh":               {"C13"},
 	"bounded-read":               {"C01", "C03", "C07", "C08"},
 	"limit-wiring":               {"C01", "C02", "C07", "C15", "C19"},
-	"timeout-arith":              {"C07"},
+	"timeout-arith":              {"C07", "C05"},
 	"typed-nil":                  {"C02", "C06", "C07", "C16", "C19"},
 	"frame-layout":               {"C03", "C05", "C07", "C09"},
 	"full-read":                  {"C04", "C07"},
@@ -132,8 +132,25 @@ var extraRules = map[string][]string{
 	// wider sharing decided after round 5 (each property depends directly on the rule's mechanism)
 	"http-200-only":     {"C07"},
 	"content-type-echo": {"C07"},
-	"no-recode":         {"C02"},
+	"no-recode":         {"C02", "C11"},
 	"default-code":      {"C19"},
+	// round-7 rules
+	"stream-close-forwards":             {"C14"},
+	"recover-shape":                     {"C13"},
+	"ctx-classified-before-coding":      {"C15", "C06"},
+	"receive-error-looked-at-first":     {"C02", "C06"},
+	"trailers-only-iff-nothing-written": {"C05", "C11"},
+	"unexpected-eof-never-clean":        {"C04"},
+	"append-to-presized":                {"C02", "C19"},
+	"close-error-param-kept":            {"C02", "C19"},
+	"no-dynamic-format":                 {"C02", "C18"},
+	"grpc-message-always-encoded":       {"C02", "C05", "C18"},
+	"newconn-rejects-only-negotiation":  {"C07", "C12"},
+	"registry-keys-verbatim":            {"C12"},
+	"grow-bounded":                      {"C09"},
+	"chain-always-entered":              {"C16", "C12", "C15"},
+	"gen-declared-locals-used":          {"C17"},
+	"gen-package-names-service-scoped":  {"C17"},
 	// round-6 rules and sharing
 	"coded-read-error-kept":         {"C04", "C06", "C15"},
 	"unary-encoding-header-decided": {"C01", "C05", "C08"},
